@@ -1,7 +1,7 @@
 (* C07 — power operator. Statements only; proofs in Proof/P_IntPow.v. *)
 From Coq Require Import ZArith List Bool.
 Import ListNotations.
-From CyVerif Require Import Lib.CInt Model.M_IntPow Model.M_PowDoc Proof.P_IntPow Gen.Gen_Pow.
+From CyVerif Require Import Lib.CInt Model.M_IntPow Model.M_PowDoc Proof.P_IntPow Proof.P_IntPowCk Gen.Gen_Pow.
 Open Scope Z_scope.
 
 (* __Pyx_pow_<T>(b, e) for every width, signedness, base and non-negative exponent:
@@ -27,6 +27,23 @@ Theorem C07_int_pow_terminates : forall w s b e,
   2 <= w -> in_range w s b -> in_range w s e -> int_pow w s b e <> None.
 Proof. exact int_pow_terminates. Qed.
 Print Assumptions C07_int_pow_terminates.
+
+(* no signed overflow inside the helper: for every signed width, whenever |b^e| <= MAX the current
+   text computes b^e exactly and none of its own multiplications overflows (PUB = undefined
+   behaviour); the result MIN itself is outside this statement and covered by the run only *)
+Theorem C07_int_pow_no_overflow : forall w b e,
+  2 <= w -> in_range w true b -> in_range w true e -> 0 <= e -> Z.abs (b ^ e) <= max_int w true ->
+  int_pow_ck true w true b e = PVal (b ^ e).
+Proof. exact int_pow_ck_no_overflow. Qed.
+Print Assumptions C07_int_pow_no_overflow.
+
+(* finding (repaired): the helper squared the base once more than needed; 200 ** 4 fits C int but
+   the following b *= b overflowed *)
+Theorem C07_int_pow_needless_square_refuted :
+  exists w b e, in_range w true b /\ in_range w true e /\ 0 <= e /\ Z.abs (b ^ e) <= max_int w true /\
+                int_pow_ck false w true b e = PUB.
+Proof. exact int_pow_ck_old_needless_square_refuted. Qed.
+Print Assumptions C07_int_pow_needless_square_refuted.
 
 (* 2 ** n object fast path: the value is 2^n for every n >= 0, and each C shift is defined *)
 Theorem C07_pow2_correct : forall n, 0 <= n -> pow2_value n = Some (2 ^ n).
